@@ -348,6 +348,21 @@ fn check_history(cases: &[Case], out: &mut Out) {
         let fv = f.version.unwrap() as usize; let fm = f.mask.unwrap() as usize;
         b.mode(MDS[all.mode.unwrap()]); b.ecl(LS[all.ecl.unwrap()]); b.version(VS[fv]); b.mask(MS[fm]);
         match b.build() { Ok(q) if same(&q, f) => {}, _ => out.fail("C14", "last_setter_wins", c, format!("setters overridden with final values (ecl {:?} version0 {} mask {} mode {:?}) give a different symbol", all.ecl, fv, fm, all.mode)) }
+        // a build BETWEEN setter calls must not leak into the next build: build with nothing set, then set one option
+        // (or all four) and build again; the result must be that of a fresh builder with the same final options
+        for which in 0..5usize {
+            let mut bb = QRBuilder::new(c.input.clone());
+            let _ = catch_unwind(AssertUnwindSafe(|| bb.build().is_ok()));
+            let mut exp = Case { input: c.input.clone(), ecl: None, version: None, mask: None, mode: None };
+            if which == 0 || which == 4 { bb.mode(MDS[all.mode.unwrap()]); exp.mode = all.mode; }
+            if which == 1 || which == 4 { bb.ecl(LS[all.ecl.unwrap()]); exp.ecl = all.ecl; }
+            if which == 2 || which == 4 { bb.version(VS[fv]); exp.version = Some(fv); }
+            if which == 3 || which == 4 { bb.mask(MS[fm]); exp.mask = Some(fm); }
+            let got = catch_unwind(AssertUnwindSafe(|| bb.build().ok())).ok().flatten();
+            let want = match build(&exp) { Built::Ok(q) => Some(q), _ => None };
+            let ok = match (&got, &want) { (Some(a), Some(b)) => same(a, b), (None, None) => true, _ => false };
+            if !ok { out.fail("C14", "build_between_setters", c, format!("build(); then setter group {} (0 mode, 1 ecl, 2 version, 3 mask, 4 all); build() differs from a fresh builder with the same final options", which)); }
+        }
         // other order of the same final setters
         let mut b2 = QRBuilder::new(c.input.clone());
         b2.version(VS[fv]); b2.mask(MS[fm]); b2.mode(MDS[all.mode.unwrap()]); b2.ecl(LS[all.ecl.unwrap()]);
@@ -491,6 +506,8 @@ fn corpus(size: &str, seed: u64) -> (Vec<Case>, Vec<Case>) {
         singles.push(Case { input: fix_class(payload(&mut r, mode, ml, st), mode), ecl: Some(l), version: None, mask: Some(r.below(8)), mode: if r.below(2) == 0 { Some(mode) } else { None } });
         singles.push(Case { input: fix_class(payload(&mut r, mode, ml + 1, 0), mode), ecl: Some(l), version: None, mask: Some(r.below(8)), mode: Some(mode) });
         if v > 0 { singles.push(Case { input: fix_class(payload(&mut r, mode, ml, 0), mode), ecl: Some(l), version: Some(v - 1), mask: Some(0), mode: Some(mode) }); }
+        // the forced version itself at its capacity boundary: exactly full (Ok), one and two characters too many (error)
+        for extra in 0..3usize { singles.push(Case { input: fix_class(payload(&mut r, mode, ml + extra, 0), mode), ecl: Some(l), version: Some(v), mask: Some((v + extra) % 8), mode: if extra == 2 { None } else { Some(mode) } }); }
         if big || (v + l + mode) % 3 == 0 {
             // spare-bit classes just below the capacity, and a forced larger version
             for d in 1..=3 { if ml >= d { singles.push(Case { input: fix_class(payload(&mut r, mode, ml - d, d), mode), ecl: Some(l), version: Some(v), mask: Some(r.below(8)), mode: Some(mode) }); } }
@@ -603,7 +620,7 @@ fn main() {
         if out.wants("C14") {
             let mut hist: Vec<Case> = groups.iter().step_by(if args[2] == "thorough" { 2 } else { 5 }).cloned().collect();
             hist.extend(singles.iter().step_by(97).cloned());
-            n_builds += hist.len() * 14;
+            n_builds += hist.len() * 29;
             check_history(&hist, &mut out);
         }
         let pp: Vec<String> = out.per_prop.iter().map(|(k, v)| format!("\"{}\":{}", k, v)).collect();
